@@ -96,7 +96,7 @@ def stepOp (H : Host) (pseudo : Option (List PChild)) (ptSpace : Bool) (r : Run)
         let (ids, s) := showEntries r.ids false es
         { r with ids := ids, outs := r.outs.push ("ok:" ++ s) }
     | none =>
-      let (st, res) := read H r.st plus (handleOf r (k.toNat?.getD 0)) size off errAt
+      let (st, res) := readReq H r.st plus (handleOf r (k.toNat?.getD 0)) size off errAt
       match res with
       | .error e => { r with st := st, outs := r.outs.push s!"e{e}" }
       | .ok es =>
